@@ -688,9 +688,16 @@ def verify_unit(unit, canary=True, extra=()):
             try:
                 cm = B.build(upath, WORK, canary=tg)
                 cres = _run_verus(cm["rs"], list(extra) + ["--verify-function", tg, "--verify-root"])
+                # the guard is against `false` being PROVED (vacuous preconditions, broken injection): the canary has done
+                # its job when Verus does not verify the function - by a reported failure or, for a big function, by
+                # exhausting the resource limit while searching for a proof of false (then also no "N verified, 0 errors")
                 cfail = any(classify(d) == "verif" for d in cres["diags"])
+                cres_out = any(classify(d) == "resource" for d in cres["diags"])
+                cvr = (cres["json"] or {}).get("verification-results", {})
+                not_proved = cfail or (cres_out and not cvr.get("success"))
                 cfront = [d for d in cres["diags"] if classify(d) == "frontend"]
-                ent = dict(function=tg, failed_as_required=bool(cfail and not cfront), wall=round(cres["wall"], 2))
+                ent = dict(function=tg, failed_as_required=bool(not_proved and not cfront), wall=round(cres["wall"], 2),
+                           how=("failure reported" if cfail else "resource limit exhausted, not verified" if cres_out else "VERIFIED"))
                 r.canaries.append(ent)
                 if not ent["failed_as_required"]:
                     r.status = "undecided"
